@@ -321,6 +321,38 @@ def family(maxsyms, nterm=2):
     return fam
 
 
+def chain_family(count, seed):
+    """grammars with FOUR nonterminals N0 (start) .. N3, one alternative each from {epsilon, Nj, a, Nj a, Nj Nk, Nj Nk a} (j, k != own index), start with an
+    optional second alternative: the family of nullability / unit-rule chains of depth up to 3 in every order of the rule indices (the fixpoint
+    computations of FIRST and of the closure visit rules in index order, so the order decides how many rounds they need).  4096 + seeded sample."""
+    def pool(i, rich):
+        o = [x for x in range(4) if x != i]
+        p = [[]] + [[N(j)] for j in o] + [[T(0)]] + [[N(j), T(0)] for j in o]
+        if rich: p += [[N(j), N(k)] for j in o for k in o] + [[N(j), N(k), T(1)] for j in o for k in o if j < k]
+        return p
+    fam = []
+    for alts in itertools.product(*[pool(i, False) for i in range(4)]):
+        fam.append({'nnt': 4, 'start': 0, 'eof': 2, 'rules': [(i, list(a)) for i, a in enumerate(alts)]})
+    rnd = random.Random(seed + 77)
+    seen = set()
+    while len(seen) < count:
+        alts = tuple(tuple(rnd.choice(pool(i, True))) for i in range(4))
+        extra = tuple(rnd.choice(pool(0, True))) if rnd.random() < 0.5 else None
+        if (alts, extra) in seen: continue
+        seen.add((alts, extra))
+        fam.append({'nnt': 4, 'start': 0, 'eof': 2, 'rules': [(i, list(a)) for i, a in enumerate(alts)] + ([(0, list(extra))] if extra is not None else [])})
+    return fam
+
+
+def null_depth(g):
+    """number of rounds the textbook nullability fixpoint needs (1 = only direct epsilon alternatives)"""
+    nul = set(); d = 0
+    while True:
+        new = {l for l, r in g['rules'] if l not in nul and all(t == 'n' and k in nul for t, k in r)}
+        if not new: return d
+        nul |= new; d += 1
+
+
 def features(g):
     """structural features used to stratify the sample (every stratum is represented)"""
     rules = g['rules']; f = set()
@@ -335,6 +367,8 @@ def features(g):
     if any(an['min'][x] >= 8 for x in range(g['nnt']) if x == 0 or used_b): f.add('unproductive')
     if any(('n', 0) in r for l, r in rules if l == 1) and used_b: f.add('mutualrec')
     if any(an['nullable']): f.add('nullable')
+    if g['nnt'] > 2: f.add('fourNT')
+    if null_depth(g) >= 3: f.add('nullchain3')
     return f
 
 
@@ -565,6 +599,9 @@ def c13_family(tier, seed):
         extra = random_family(3, 12000, seed)
         fam = fam + extra
         note += ' + %d seeded random grammars with an alternative of 3 symbols (that family has about 7 million members)' % len(extra)
+    ch = chain_family(1500 if tier == 'quick' else 12000, seed)
+    fam = fam + ch
+    note += ' + %d grammars with 4 nonterminals (unit / nullability chains of depth <= 3 in every order of the rule indices: all 4096 with alternatives from {eps, Nj, a, Nj a}, the rest seeded with Nj Nk / Nj Nk b)' % len(ch)
     return fam, note
 
 
@@ -712,6 +749,8 @@ def confirm_violations(prop, out, first, jobs, wd):
                 'solver': {k: cex.get(k) for k in ('CEX_accept', 'CEX_value', 'CEX_in_lang', 'CEX_oracle_value', 'CEX_oracle_count', 'CEX_oracle_len')}}
         if j.lr.get('pattern') is not None: body['pattern'] = j.lr['pattern']; body['kind'] = 'pattern'
         try:
+            if 'FIRST set the generator computed' in v['assertion'] and body['kind'] == 'parse':
+                body['kind'] = 'first'     # a statement about the generator's FIRST sets, not about the driver: replayed as the native FIRST comparison
             rep = (replay_pattern if body['kind'] == 'pattern' else replay_grammar)(wd, body)
         except Exception as ex:
             rep = {'reproduced': False, 'error': str(ex)[:300]}
